@@ -234,3 +234,44 @@ package socket
 //@   flags libframe
 //@   requires?[caller-holds-socket-lock] held(addr(s.mu))
 //@ guarded (*socket).curState by atomic @C14
+
+// ---- C05: the size field of a packed frame is the frame's length ----------------------
+// monitors: the value last stored by binary.BigEndian.PutUint32 and where, and the
+// slice last handed to the connection's Write (library calls, io / encoding/binary)
+//@ ghost global lastPut32 int
+//@ ghost global lastPut32Base int
+//@ ghost global lastPut32Off int
+//@ ghost global lastWriteLen int
+//@ ghost global lastWriteBase int
+//@ ghost global lastWriteOff int
+//@ ghost global connWrites int
+//@ ext (encoding/binary.bigEndian).PutUint32
+//@   params o b v
+//@   flags libframe
+//@   modifies ghost.lastPut32, ghost.lastPut32Base, ghost.lastPut32Off
+//@   ghostset ghost.lastPut32 = v
+//@   ghostset ghost.lastPut32Base = base(b)
+//@   ghostset ghost.lastPut32Off = off(b)
+//@ iface io.Writer.Write in socket.(*rawProto).Pack
+//@   params w p
+//@   flags libframe
+//@   modifies ghost.written, ghost.lastWriteLen, ghost.lastWriteBase, ghost.lastWriteOff, ghost.connWrites
+//@   ghostset ghost.lastWriteLen = len(p)
+//@   ghostset ghost.lastWriteBase = base(p)
+//@   ghostset ghost.lastWriteOff = off(p)
+//@   ghostset ghost.connWrites = old(ghost.connWrites) + 1
+// binary.Write into a byte buffer appends to it (it calls the buffer's Write)
+//@ ext encoding/binary.Write
+//@   params w order data
+//@   flags libframe
+//@   modifies as(w, type(*utils.ByteBuffer)).B, ghost.written
+// the raw protocol: the size field opens the frame and counts the whole frame,
+// itself included (for frames within the field's 32-bit range)
+//@ func (*rawProto).Pack
+//@   property C05
+//@   flags libframe frame-unchecked
+//@   let pm = as(m, type(*message))
+//@   ensures[single-write-per-frame] ghost.connWrites <= old(ghost.connWrites) + 1 && (result == nil ==> ghost.connWrites == old(ghost.connWrites) + 1)
+//@   ensures[size-field-opens-the-frame] result == nil ==> ghost.lastWriteBase == ghost.lastPut32Base && ghost.lastWriteOff == ghost.lastPut32Off
+//@   ensures[size-field-is-the-frame-length] result == nil && ghost.lastWriteLen < 4294967296 ==> ghost.lastPut32 == ghost.lastWriteLen
+//@   ensures[declared-size-is-the-size-field] result == nil ==> pm.size == ghost.lastPut32
